@@ -31,7 +31,10 @@ impl Decodable for UtcDateTime {
         let nanos = reader.read_u32().await?;
         self.0 = OffsetDateTime::from_unix_timestamp(seconds)
             .map_err(encoding_error)?
-            + Duration::nanoseconds(nanos as i64);
+            .checked_add(Duration::nanoseconds(nanos as i64))
+            .ok_or_else(|| {
+                std::io::Error::other("date time is out of range")
+            })?;
         Ok(())
     }
 }
